@@ -124,40 +124,40 @@ type Input struct {
 }
 
 type Obs struct {
-	Find       []Row    `json:"find"`
-	FindRA     int64    `json:"find_ra"`
-	Maps       []Row    `json:"maps"`
-	Rows       []Row    `json:"rows"`
-	Scan       []Row    `json:"scan"`
-	PluckID    []int64  `json:"pluck_id"`
-	PluckV     []int64  `json:"pluck_v"`
-	Count      int64    `json:"count"`
-	First      *Row     `json:"first"`
-	Last       *Row     `json:"last"`
-	Take       *Row     `json:"take"`
-	Batches    [][]Row  `json:"batches"`
-	BatchesRA  int64    `json:"batches_ra"`
-	Ptrs       []Row    `json:"ptrs"`
-	Array      []Row    `json:"array"`
+	Find      []Row   `json:"find"`
+	FindRA    int64   `json:"find_ra"`
+	Maps      []Row   `json:"maps"`
+	Rows      []Row   `json:"rows"`
+	Scan      []Row   `json:"scan"`
+	PluckID   []int64 `json:"pluck_id"`
+	PluckV    []int64 `json:"pluck_v"`
+	Count     int64   `json:"count"`
+	First     *Row    `json:"first"`
+	Last      *Row    `json:"last"`
+	Take      *Row    `json:"take"`
+	Batches   [][]Row `json:"batches"`
+	BatchesRA int64   `json:"batches_ra"`
+	Ptrs      []Row   `json:"ptrs"`
+	Array     []Row   `json:"array"`
 	// Find into a slice that already holds records and has spare capacity (a reused destination)
-	Reused   []Row `json:"reused"`
-	ReusedRA int64 `json:"reused_ra"`
-	Single     *Row     `json:"single"`
-	SingleRA   int64    `json:"single_ra"`
-	Prim       *int64   `json:"prim"`
-	PrimRA     int64    `json:"prim_ra"`
+	Reused   []Row  `json:"reused"`
+	ReusedRA int64  `json:"reused_ra"`
+	Single   *Row   `json:"single"`
+	SingleRA int64  `json:"single_ra"`
+	Prim     *int64 `json:"prim"`
+	PrimRA   int64  `json:"prim_ra"`
 	// Find into a slice of maps that already holds one map (a reused destination: gorm appends);
 	// First into such a slice: ErrRecordNotFound?
-	ReusedMaps    []Row `json:"reused_maps"`
-	ReusedMapsRA  int64 `json:"reused_maps_ra"`
-	ReusedFirstNF bool  `json:"reused_first_nf"`
-	ScanMaps   []Row    `json:"scan_maps"`
-	ScanMapsRA int64    `json:"scan_maps_ra"`
-	RowsMaps   []Row    `json:"rows_maps"`
-	FirstMap   *Row     `json:"first_map"`
-	LastMap    *Row     `json:"last_map"`
-	TakeMap    *Row     `json:"take_map"`
-	Errs       []string `json:"errs"`
+	ReusedMaps    []Row    `json:"reused_maps"`
+	ReusedMapsRA  int64    `json:"reused_maps_ra"`
+	ReusedFirstNF bool     `json:"reused_first_nf"`
+	ScanMaps      []Row    `json:"scan_maps"`
+	ScanMapsRA    int64    `json:"scan_maps_ra"`
+	RowsMaps      []Row    `json:"rows_maps"`
+	FirstMap      *Row     `json:"first_map"`
+	LastMap       *Row     `json:"last_map"`
+	TakeMap       *Row     `json:"take_map"`
+	Errs          []string `json:"errs"`
 	// Count against Find under a Select of columns (-1 = not run: chain has limit / offset)
 	SelCount int64 `json:"sel_count"`
 	SelFind  int64 `json:"sel_find"`
